@@ -48,6 +48,9 @@ func TestEngine(t *testing.T) {
 		}
 
 		replay = &Case{Header: d.Header, Ops: d.Ops}
+		if d.Scenario != nil {
+			replay = &Case{Header: d.ScenarioHeader, Ops: d.Scenario}
+		}
 	}
 
 	RunEngine(t, mk(), *flagSeed, *flagThorough, *flagOut, replay)
